@@ -228,7 +228,7 @@ def check_whole(res, facts):
             n = t["f"].get("name")
             if t.get("mac") or not t["args"]:
                 continue
-            if n in ("serialize_seq", "get_serialized_size_of_seq", "serialize_with_mode", "serialized_size", "map", "next", "sum"):
+            if n in ("serialize_seq", "get_serialized_size_of_seq", "serialize_with_mode", "serialized_size", "map", "next", "sum", "try_for_each", "for_each", "fold", "try_fold"):
                 sources.append(E(f, t["args"][0]))
         verdict, why = None, None
         n_whole = 0
